@@ -486,6 +486,9 @@ CORPUS = [
     # non-empty operand: filling the result then changed that operand)
     ["dev S", "new 3 3 1 2 3", "new 0 0", "concat 3 0 5", "fill 5 9", "get 3", "get 5", "concat 0 3 4", "fill 4 7", "get 3", "get 4"],
     ["dev O", "new 1 4 5 6 7 8", "new 2 0", "concat 1 2 6", "rev 6 6", "get 1", "concat 2 1 7", "fill 7 0", "get 1"],
+    # tiled descending ranges with |step| > 1 (seeded change C23-m3: the block stride of `-=` loops lost the step)
+    ["dev S", "loop r:10:0:-3:t2", "loop r:12:-1:-2:t3", "loop r:9:-9:-4:t8 n:2:t1"],
+    ["dev O", "loop r:10:0:-3:t2", "loop r:7:-6:-5:t1 r:3:0:-2:t2"],
     # F60 (findIndex with several matches)
     ["dev S", "new 0 6 5 1 2 1 9 1", "find 0 4 1"],
     ["dev S", "r.find 0 10 1 0 0 0 6"],
